@@ -262,6 +262,29 @@ harnesses! {
     }
 
 
+    // set_chunk_size, a call, reset(): the restored chunk size and the next input need must belong
+    // together (both from the construction values); two plain calls after the reset
+    #[kani::unwind(44)]
+    fn c03_sfo_chunk_reset_plain(nd) {
+        probe::reset_flags();
+        let mut r = SincFixedOut::<f64>::new_with_interpolator(1.0, 1.25, SincInterpolationType::Nearest, probe::boxed64(2, 1), 8, 1).unwrap();
+        let c = nd.usize_in(1, 8);
+        check!(r.set_chunk_size(c).is_ok(), "C03.ok[base]");
+        let mut pos = 0usize;
+        let mut xin = [0.0f64; 20];
+        let mut out = [0.0f64; 8];
+        let o = call1(nd, &mut r, &mut pos, 0, 0, &mut xin, &mut out);
+        obs_checks!(o, true, "base");
+        r.reset();
+        let o = call1(nd, &mut r, &mut pos, 0, 0, &mut xin, &mut out);
+        obs_checks!(o, true, "base");
+        let o = call1(nd, &mut r, &mut pos, 0, 0, &mut xin, &mut out);
+        obs_checks!(o, true, "base");
+        probe_checks!("base");
+        cover!(c < 8, "smaller chunk before the reset");
+        forget(r);
+    }
+
     // ---- reset() must size the next input from the ORIGINAL ratio: symbolic ratio before the reset,
     // then two plain calls (no setter in between, which would recompute the need)
     #[kani::unwind(64)]
